@@ -114,6 +114,7 @@ type cnrEnv struct {
 	owners    []neotest.Signer
 	ownerIDs  [][]byte // 25-byte owner ids
 	ownerSH   [][]byte // script hashes (balance accounts)
+	alphaOwners []int  // indices of the owners that are Alphabet nodes' standard accounts
 
 	nns, netmap, balance, neofsid, container util.Uint160
 	alphaAccts                                [][]byte // CreateStandardAccount of committee keys
@@ -162,6 +163,22 @@ func newCnrEnv(t testing.TB, nc int) *cnrEnv {
 		require.Len(t, id, 25)
 		c.ownerIDs = append(c.ownerIDs, id)
 		c.ownerSH = append(c.ownerSH, o.ScriptHash().BytesBE())
+	}
+	// owners that coincide with fee recipients: the standard accounts of the first
+	// and (for a multi-key committee) the last Alphabet key
+	ai := []int{0}
+	if nc > 1 {
+		ai = append(ai, nc-1)
+	}
+	for _, i := range ai {
+		o := neotest.NewSingleSigner(wallet.NewAccountFromPrivateKey(ks[i].PrivateKey()))
+		require.Equal(t, c.alphaAccts[i], o.ScriptHash().BytesBE())
+		c.owners = append(c.owners, o)
+		id := cnrB58Decode(address.Uint160ToString(o.ScriptHash()))
+		require.Len(t, id, 25)
+		c.ownerIDs = append(c.ownerIDs, id)
+		c.ownerSH = append(c.ownerSH, o.ScriptHash().BytesBE())
+		c.alphaOwners = append(c.alphaOwners, len(c.owners)-1)
 	}
 
 	gasH := e.NativeHash(t, nativenames.Gas)
@@ -252,6 +269,10 @@ func (c *cnrEnv) buildPools() {
 	os := []int{0, 1, 2, 1, 0, 0}
 	for i := range vs {
 		c.blobs = append(c.blobs, cnrBlob(vs[i], c.ownerIDs[os[i]], byte(i+1)))
+	}
+	// containers owned by Alphabet nodes (payer = one of the payees)
+	for k, oi := range c.alphaOwners {
+		c.blobs = append(c.blobs, cnrBlob([]int{0, 2}[k%2], c.ownerIDs[oi], byte(7+k)))
 	}
 	for _, b := range c.blobs {
 		h := sha256.Sum256(b)
@@ -767,32 +788,44 @@ func (c *cnrEnv) coqStep(q *cnrCoq, op cnrOp, o cnrObs) string {
 	return fmt.Sprintf("((%s, %s, %s, %s), %s)", BoolLit(alpha), ZI(o.now), q.it("list bytes", q.refs(hs)), c.coqOp(q, op), obs)
 }
 
-func (c *cnrEnv) coqCase(q *cnrCoq, steps []string) string {
+func (c *cnrEnv) coqCase(q *cnrCoq, steps []string, wf bool) string {
 	probe := fmt.Sprintf("mkProbe %s %s %s %s %s", q.refs(c.probeCids()), q.refs(c.probeOwners), q.refs(c.domains), q.refs(c.accts), q.refs(c.ownerIDs))
-	return fmt.Sprintf("mkCase %s %s %s %s %s %s", q.it("probe", probe), q.refs(c.alphaAccts),
-		q.pool.Ref(c.committee.ScriptHash().BytesBE()), q.pool.Ref(c.container.BytesBE()), q.it("nstate", c.readNNS(q)), ListLit(steps))
+	return fmt.Sprintf("mkCase %s %s %s %s %s %s %s", q.it("probe", probe), q.refs(c.alphaAccts),
+		q.pool.Ref(c.committee.ScriptHash().BytesBE()), q.pool.Ref(c.container.BytesBE()), q.it("nstate", c.readNNS(q)), BoolLit(wf), ListLit(steps))
 }
 
 func writeCnrCases(path string, q *cnrCoq, cases []string) error {
 	var sb strings.Builder
-	sb.WriteString("From Verif Require Import Base.Prelude Model.Balance Model.Container.\nLocal Open Scope Z_scope.\n")
+	sb.WriteString("From Verif Require Import Base.Prelude Model.Balance Model.Container Proofs.ContainerNNS.\nLocal Open Scope Z_scope.\n")
 	sb.WriteString(q.pool.Defs())
 	sb.WriteString(strings.Join(q.vdefs, "\n"))
 	sb.WriteString("\nDefinition cid_tab : list (bytes * bytes) := " + ListLit(q.cidRows) + ".\n")
 	sb.WriteString("Definition b58_tab : list (bytes * bytes) := " + ListLit(q.b58Rows) + ".\n")
 	sb.WriteString(`Record ccase := mkCase {
   k_probe : probe; k_alphabet : list bytes; k_caddr : bytes; k_self : bytes; k_nns : nstate;
+  k_wf : bool; (* the harness claims the premise wf_alias of C04_delete_total_partial *)
   k_steps : list ((bool * Z * list bytes * wop) * val) }.
+Definition foreign_tab (d : bytes) : bool := negb (existsb (fun kv => bytes_eqb (snd kv) d) b58_tab).
+Definition case_ops (k : ccase) : list (cctx * wop) :=
+  map (fun (sv : (bool * Z * list bytes * wop) * val) =>
+         let '(a, now, wit, o) := fst sv in (mkCC a (k_alphabet k) now wit (k_caddr k) (k_self k), o))
+      (k_steps k).
 Definition check_case (k : ccase) :=
-  run_case (fun w (x : bool * Z * list bytes * wop) =>
+  match run_case (fun w (x : bool * Z * list bytes * wop) =>
               let '(a, now, wit, o) := x in
               wstep_obs (table_fun cid_tab) (table_fun b58_tab) (k_probe k) w
                 (mkCC a (k_alphabet k) now wit (k_caddr k) (k_self k), o))
-           (winit default_root (k_nns k)) 0 (k_steps k).
+           (winit default_root (k_nns k)) 0 (k_steps k) with
+  | Some x => Some x
+  | None =>
+      if k_wf k && negb (wf_alias (table_fun cid_tab) (table_fun b58_tab) foreign_tab
+                           (winit default_root (k_nns k)) (case_ops k))
+      then Some (99999%nat, VBool false) else None
+  end.
 `)
 	sb.WriteString("Definition cases : list ccase := [\n")
 	sb.WriteString(strings.Join(cases, ";\n"))
-	sb.WriteString("\n].\nDefinition M := Eval vm_compute in failures_from 0 (map check_case cases).\nPrint M.\n")
+	sb.WriteString("\n].\nDefinition M := Eval vm_compute in failures_from 0 (map check_case cases).\nPrint M.\n(* histories for which the premise wf_alias is claimed and confirmed / all histories *)\nDefinition W := Eval vm_compute in (length (List.filter k_wf cases), length cases).\nPrint W.\n")
 	return os.WriteFile(path, []byte(sb.String()), 0o644)
 }
 
@@ -821,12 +854,13 @@ type cnrMon struct {
 	prev    *cnrObs
 	hist    []cnrOp
 	nnsFree bool // no direct NNS writes / time jumps so far: the NNS-trace check applies
-	nPutOK, nPutFail, nDelOK, nEaclOK int
+	wfAlias bool // the premise wf_alias of C04_delete_total_partial holds so far (conservative)
+	nPutOK, nPutFail, nDelOK, nEaclOK, nNamedOK int
 }
 
 func newCnrMon(c *cnrEnv, st *Stats, prop string) *cnrMon {
 	return &cnrMon{c: c, st: st, prop: prop, live: map[string]*cnrInfo{}, dead: map[string]bool{},
-		oldAl: map[string][]string{}, cfg: map[string]*big.Int{}, nnsFree: true}
+		oldAl: map[string][]string{}, cfg: map[string]*big.Int{}, nnsFree: true, wfAlias: true}
 }
 
 func (m *cnrMon) violate(what string) { m.st.AddViolation(what, m.hist) }
@@ -948,7 +982,11 @@ func (m *cnrMon) step(op cnrOp, o *cnrObs) {
 		}
 		inf.blob, inf.sig, inf.pub, inf.tok, inf.owner = op.Blob, op.Sig, op.Pub, op.Tok, ow
 		if op.Kind == "putNamed" && op.Name != "" {
+			m.nNamedOK++
 			d := m.domainOf(op)
+			if inf.hasAlias {
+				m.wfAlias = false // a second alias for a live container
+			}
 			if inf.hasAlias && inf.alias != d {
 				inf.aliasHist = append(inf.aliasHist, inf.alias)
 				m.oldAl[string(cid)] = append(m.oldAl[string(cid)], inf.alias)
@@ -962,8 +1000,20 @@ func (m *cnrMon) step(op cnrOp, o *cnrObs) {
 		m.nPutFail++
 	case delOK:
 		m.nDelOK++
-		if m.live[string(op.Cid)] == nil {
+		if inf := m.live[string(op.Cid)]; inf == nil {
 			m.violate4("DeleteSuccess for a container that was not live")
+		} else if inf.hasAlias {
+			// premise: the alias domain is registered and unexpired (then NNS either
+			// removes the records or the whole delete faults)
+			ok := false
+			for i, dm := range c.domains {
+				if string(dm) == inf.alias && o.records[i].ok {
+					ok = true
+				}
+			}
+			if !ok {
+				m.wfAlias = false
+			}
 		}
 		delete(m.live, string(op.Cid))
 		m.dead[string(op.Cid)] = true
@@ -978,6 +1028,17 @@ func (m *cnrMon) step(op cnrOp, o *cnrObs) {
 		}
 	case op.Kind == "setConfig" && o.halt:
 		m.cfg[op.Key] = op.Amount
+	case op.Kind == "nnsAddTxt" && o.halt:
+		for _, b := range o.recCids(m) {
+			if cnrB58Encode(b) == string(op.Data) {
+				m.wfAlias = false
+			}
+		}
+		for _, b := range c.cids {
+			if cnrB58Encode(b) == string(op.Data) {
+				m.wfAlias = false
+			}
+		}
 	}
 	// --- C04: read API = live set
 	for i, pc := range c.probeCids() {
@@ -1234,7 +1295,7 @@ func (g *cnrGen) alphaSigners() []int {
 	r := g.r
 	switch x := r.Intn(100); {
 	case x < 6:
-		return []int{r.Intn(cnrNOwners)} // owner only: Alphabet witness missing
+		return []int{r.Intn(len(g.c.owners))} // owner only: Alphabet witness missing
 	case x < 9:
 		return []int{}
 	case x < 12:
@@ -1242,7 +1303,7 @@ func (g *cnrGen) alphaSigners() []int {
 	case x < 40:
 		return []int{-1, -2}
 	case x < 50:
-		return []int{-1, r.Intn(cnrNOwners)}
+		return []int{-1, r.Intn(len(g.c.owners))}
 	default:
 		return []int{-1}
 	}
@@ -1492,9 +1553,9 @@ func (g *cnrGen) next(step int) cnrOp {
 		op = cnrOp{Kind: "setEACL", Blob: e, Sig: g.sig(), Pub: g.pub(), Tok: g.tok(), Signers: g.alphaSigners()}
 	case 3:
 		am := []*big.Int{big.NewInt(1), big.NewInt(6), big.NewInt(50), big.NewInt(1_000_000_000), big.NewInt(7_000_000_007)}[r.Intn(5)]
-		op = cnrOp{Kind: "mint", To: c.ownerSH[r.Intn(cnrNOwners)], Amount: am, Data: []byte{byte(step)}, Signers: g.alphaSigners()}
+		op = cnrOp{Kind: "mint", To: c.ownerSH[r.Intn(len(c.owners))], Amount: am, Data: []byte{byte(step)}, Signers: g.alphaSigners()}
 	case 4:
-		oi := r.Intn(cnrNOwners)
+		oi := r.Intn(len(c.owners))
 		am := new(big.Int).Set(g.bal(oi))
 		switch r.Intn(4) {
 		case 0:
@@ -1575,7 +1636,42 @@ func cnrCorpus(c *cnrEnv) [][]cnrOp {
 		return cnrOp{Kind: "mint", To: c.ownerSH[o], Amount: n(v), Data: []byte{9}, Signers: al}
 	}
 	comm := c.committee.ScriptHash().BytesBE()
+	// the owner is an Alphabet node's standard account: one of the N per-node
+	// transfers is owner -> owner (exact charge: -fee*N + fee)
+	A := c.alphaOwners[0]
+	bA := 6 // first container blob of an Alphabet-node owner
+	setBal := func(cur, target int64) []cnrOp {
+		switch {
+		case target > cur:
+			return []cnrOp{mint(A, target-cur)}
+		case target < cur:
+			return []cnrOp{{Kind: "transfer", From: c.ownerSH[A], To: c.ownerSH[0], Amount: n(cur - target), Signers: []int{A}}}
+		}
+		return nil
+	}
+	selfPay := []cnrOp{fee("ContainerFee", 7), fee("ContainerAliasFee", 1),
+		mint(A, 7*N), // balance = fee*N exactly
+		put(bA, cnrTok)} // accepted; the owner's own share comes back: ends with 7
+	selfPay = append(selfPay, setBal(7, 7*N+1)...) // balance = fee*N + 1
+	selfPay = append(selfPay, put(bA, cnrTok))      // ends with 1 + 7
+	selfPay = append(selfPay, setBal(8, 7*N-1)...) // balance = fee*N - 1
+	selfPay = append(selfPay, put(bA, cnrTok))      // refused
+	// a domain pre-registered by the committee (no TXT record) still costs
+	// ContainerFee + ContainerAliasFee
+	selfPay = append(selfPay, cnrOp{Kind: "nnsRegister", Name: "aaa.cdn", To: comm, Expire: 3600 * 24 * 365, Signers: []int{-2}})
+	selfPay = append(selfPay, setBal(7*N-1, 8*N)...)
+	selfPay = append(selfPay, named(bA, "aaa", "cdn", both)) // ends with 8
+	selfPay = append(selfPay, mint(1, 8*N), cnrOp{Kind: "nnsRegister", Name: "bbb.cdn", To: comm, Expire: 3600 * 24 * 365, Signers: []int{-2}},
+		named(1, "bbb", "cdn", both), // ordinary owner, pre-registered domain: (7+1)*N
+		fee("ContainerFee", 1_000_000_000))
+	selfPay = append(selfPay, setBal(8, 1_000_000_000*N)...)
+	selfPay = append(selfPay, cnrOp{Kind: "putMeta", Blob: B[bA], Sig: cnrSigB, Pub: P[1], Tok: nil, Meta: true, Signers: al})
+	if len(c.alphaOwners) > 1 { // the last Alphabet node as owner
+		L := c.alphaOwners[1]
+		selfPay = append(selfPay, mint(L, 1_000_000_000*N), put(bA+1, cnrTok), put(bA+1, cnrTok))
+	}
 	return [][]cnrOp{
+		selfPay,
 		{ // F13: a second alias for a live container; delete removes only the last one
 			fee("ContainerFee", 7), fee("ContainerAliasFee", 1), mint(0, 1000), mint(1, 1000),
 			put(0, cnrTok),
@@ -1690,10 +1786,10 @@ func cnrOpString(op cnrOp) string {
 func runContainerFamily(t *testing.T, prop string) {
 	st := NewStats(prop)
 	if prop == "C04" {
-		st.Rule = "histories = 4 corpus witnesses + seeded structured generation over 3 owners, 6 container blobs (version-field lengths 0,2,5), 3 names x 2 zones, malformed blobs/ids/names, missing witnesses; " +
+		st.Rule = "histories = 5 corpus witnesses (+2 on a four-key committee in the quick tier) + seeded structured generation over 3 owners + the Alphabet nodes' own accounts as owners, 6+ container blobs (version-field lengths 0,2,5), 3 names x 2 zones, malformed blobs/ids/names, missing witnesses; " +
 			"non-trivial = the history contains a successful put, a successful delete and a refused/faulting call; distinct = by the sequence of (operation kind, outcome) pairs"
 	} else {
-		st.Rule = "histories = 4 corpus witnesses + seeded structured generation (fees from {0,1,7,10^9,-1,2^254}, balances steered to fee*N-1, fee*N, fee*N+1, named and unnamed puts, fee changes between puts); " +
+		st.Rule = "histories = 5 corpus witnesses (+2 on a four-key committee in the quick tier) + seeded structured generation (fees from {0,1,7,10^9,-1,2^254}, balances steered to fee*N-1, fee*N, fee*N+1, owners that are themselves fee recipients, named and unnamed puts, fee changes between puts); " +
 			"non-trivial = the history contains a successful paying put (fee*N > 0) and a put refused or faulting; distinct = by the sequence of (operation kind, outcome, fee*N) triples"
 	}
 	q := newCnrCoq()
@@ -1706,9 +1802,15 @@ func runContainerFamily(t *testing.T, prop string) {
 	distinct := map[string]bool{}
 	var cases []string
 	sizeHist := map[string]int{}
+	nWf, nWfRich := 0, 0
 	// the cases go to files of at most `per` histories, each with its own tables
 	per, nfile := 110, 0
-	total := 4*len(sizes) + nh
+	ncorpus := len(cnrCorpus(newCnrEnv(t, 1)))
+	extra := 0
+	if Tier() != "thorough" {
+		extra = 2 // two corpus histories on a four-key committee
+	}
+	total := ncorpus*len(sizes) + extra + nh
 	flush := func(last bool) {
 		if len(cases) == 0 || (!last && len(cases) < per) {
 			return
@@ -1787,7 +1889,13 @@ func runContainerFamily(t *testing.T, prop string) {
 		if nontrivial {
 			distinct[sig.String()] = true
 		}
-		cases = append(cases, c.coqCase(q, steps))
+		cases = append(cases, c.coqCase(q, steps, mon.wfAlias))
+		if mon.wfAlias {
+			nWf++
+			if mon.nDelOK > 0 && mon.nNamedOK > 0 {
+				nWfRich++
+			}
+		}
 		flush(false)
 		if len(st.Samples) < 3 && (hidx == -1 || hidx == 0 || hidx == 1) {
 			var ss []string
@@ -1802,18 +1910,23 @@ func runContainerFamily(t *testing.T, prop string) {
 		}
 	}
 	{
-		nc := len(cnrCorpus(newCnrEnv(t, 1)))
+		corpusRun := func(ci, sz int) {
+			run(-1-ci, sz, func(c *cnrEnv, step int, g *cnrGen) (cnrOp, bool) {
+				h := cnrCorpus(c)[ci]
+				if step >= len(h) {
+					return cnrOp{}, false
+				}
+				return h[step], true
+			})
+		}
 		for _, sz := range sizes {
-			for ci := 0; ci < nc; ci++ {
-				ci := ci
-				run(-1-ci, sz, func(c *cnrEnv, step int, g *cnrGen) (cnrOp, bool) {
-					h := cnrCorpus(c)[ci]
-					if step >= len(h) {
-						return cnrOp{}, false
-					}
-					return h[step], true
-				})
+			for ci := 0; ci < ncorpus; ci++ {
+				corpusRun(ci, sz)
 			}
+		}
+		if extra > 0 { // quick tier: owner = Alphabet node and the F13 witness on a multi-key committee
+			corpusRun(0, 4)
+			corpusRun(1, 4)
 		}
 	}
 	for h := 0; h < nh; h++ {
@@ -1827,6 +1940,12 @@ func runContainerFamily(t *testing.T, prop string) {
 	}
 	st.DistinctNontrivial = len(distinct)
 	st.Extra["committee_sizes"] = sizeHist
+	st.Extra["wf_alias"] = map[string]any{
+		"histories_satisfying_premise": nWf,
+		"of_which_with_successful_named_put_and_delete": nWfRich,
+		"histories": st.Histories,
+		"note": "premise of C04_delete_total_partial (at most one alias per id, alias domain live at delete, direct NNS TXT writes foreign), decided conservatively by the monitor and re-evaluated by wf_alias inside the cases file: a claimed history for which wf_alias computes false is a correspondence failure (M <> [])",
+	}
 	flush(true)
 	st.Write()
 }
